@@ -24,8 +24,11 @@ pub enum SumFamily {
     Dyadic,
     /// normal values so small that one ulp of the running sum is subnormal
     TinyScale,
+    /// one value so large that its ulp exceeds the increments, then equal dyadic increments: each
+    /// increment is absorbed by the compensation alone, which it sometimes cancels exactly (y = x - c = 0)
+    DyadicOnHugeBase,
 }
-const FAMILIES: [SumFamily; 9] = [
+const FAMILIES: [SumFamily; 10] = [
     SumFamily::Constant,
     SumFamily::UniformSameSign,
     SumFamily::LogUniform,
@@ -35,6 +38,7 @@ const FAMILIES: [SumFamily; 9] = [
     SumFamily::TinyOnLargeBase,
     SumFamily::Dyadic,
     SumFamily::TinyScale,
+    SumFamily::DyadicOnHugeBase,
 ];
 
 #[derive(Clone, Copy, Debug, Serialize, Deserialize, PartialEq)]
@@ -120,6 +124,16 @@ fn gen<F: Fl>(c: &Case) -> Vec<F> {
         SumFamily::Dyadic => {
             for _ in 0..n {
                 v.push(r.range(-1024, 1024) as f64 / 64.0);
+            }
+        }
+        SumFamily::DyadicOnHugeBase => {
+            let p = if c.f32 { 24 } else { 53 };
+            let sign = if r.bool() { 1.0 } else { -1.0 };
+            let base = ((p + r.range(1, 6)) as f64).exp2() * sign;
+            let inc = *r.pick(&[1.0, 0.25, 2.0, 0.5]) * if r.chance(0.8) { sign } else { -sign };
+            v.push(base);
+            for _ in 1..n {
+                v.push(inc);
             }
         }
         SumFamily::TinyScale => {
@@ -411,8 +425,8 @@ fn judge<F: Fl>(c: &Case, l: &mut Local) {
 fn make_case(seed: u64, i: u64, quick: bool) -> Case {
     let mut r = Rng::from(&[seed, 0xc08, i]);
     let f32 = i % 2 == 0;
-    let family = FAMILIES[(i / 2 % 9) as usize];
-    let hist = HISTS[(i / 18 % 9) as usize];
+    let family = FAMILIES[(i / 2 % 10) as usize];
+    let hist = HISTS[(i / 20 % 9) as usize];
     // length ladder: mostly short, some long
     let n = match r.below(100) {
         0..=39 => r.range(1, 99) as usize,
@@ -437,7 +451,7 @@ pub fn run(run: &Arc<Run>) {
     let seed = run.cfg.seed;
     let quick = run.cfg.quick();
     run.set_rule(format!(
-        "seeded histories: 8 data families (constants 1.1/0.1/1/3/0.7, same-sign uniform, log-uniform 2^±40 (f32: ±30), mixed sign, large+many small-large, alternating near-cancelling, tiny increments on a large base, dyadic) x f32/f64 x lengths 1..10^6 ({} in the thorough tier) \
+        "seeded histories: 10 data families (constants 1.1/0.1/1/3/0.7, same-sign uniform, log-uniform 2^±40 (f32: ±30), mixed sign, large+many small-large, alternating near-cancelling, tiny increments on a large base, dyadic, tiny scale with subnormal ulps, equal dyadic increments on a base whose ulp exceeds them) x f32/f64 x lengths 1..10^6 ({} in the thorough tier) \
          x 9 histories (+= x; one accumulator fed alternately by value and by register; s = s + x; += KahanSum::from(x); registers over chunks of size 1,2,3,7,1000,random merged by left fold / right fold (receiver is the smaller register) / balanced tree / random tree / random tree with interleaved scalars). \
          Oracle: exact BigInt sum; bound |value - S| <= {} u sum|x|. Naive summation runs alongside as a sensitivity witness. For += histories the sums inside Arithmetic are judged too (mean*n; variance reconstructed). \
          distinct = distinct (type, family, n, data seed, history, chunking); all non-trivial.",
